@@ -285,8 +285,11 @@ func (w WALBatch) replay(fs *fileStore) error {
 			if err != nil && !errors.Is(err, errKeyAlreadyExists) {
 				return err
 			}
-			if err := fs.incrementLastKey(); err != nil {
-				return err
+			// the row id of the record is in use from here on. counting
+			// one id per record would fall behind the ids that refused
+			// inserts consumed before the crash.
+			if row.cellID > fs.lastKey {
+				fs.lastKey = row.cellID
 			}
 
 		case OpUpdate:
